@@ -350,9 +350,163 @@ def r33_3(ctx, F):
                 'matcher (string comparison) still matches' % (line, w, w, ','.join(missing), w)), 'tools/matchcompiler.py:%s' % line)
 
 
+class Unhandled(Exception):
+    pass
+
+
+UNK = object()
+NPOS = -1
+
+
+LINK = [UNK]
+# Token::mLink is only ever set on bracket tokens (Tokenizer::createLinks / createLinks2 / TokenList::createAst link ( ) [ ] { } < >); for every other
+# string the evaluation runs with mLink == nullptr only, for these with both values (two runs: the tests of mLink in one chain are correlated)
+LINKABLE = set('()[]{}<>')
+
+
+def _ev(n, w):
+    """Three-valued evaluation of a condition of Token::update_property_info for the constant token string w (mLink unknown, no varId)."""
+    n = strip_all(n)
+    k = n.get('k')
+    kids = [c for c in (n.get('c') or [])]
+    if k in ('CXXStaticCastExpr', 'CStyleCastExpr', 'CXXFunctionalCastExpr', 'ExprWithCleanups', 'MaterializeTemporaryExpr', 'CXXBindTemporaryExpr') and kids:
+        return _ev(kids[-1], w)
+    if k == 'StringLiteral':
+        return n.get('v')
+    if k == 'IntegerLiteral':
+        return int(n.get('v'))
+    if k == 'CharacterLiteral':
+        return chr(n.get('v'))
+    if k == 'CXXBoolLiteralExpr':
+        return bool(n.get('v'))
+    if k == 'MemberExpr':
+        nm = n.get('n', '')
+        if nm == 'Token::mStr':
+            return w
+        if nm == 'Token::mLink':
+            return LINK[0]
+        if nm.endswith('::mVarId'):
+            return 0
+        raise Unhandled('member %s' % nm)
+    if k == 'DeclRefExpr' and 'npos' in n.get('n', ''):
+        return NPOS
+    if k == 'UnaryOperator' and n.get('op') == '!':
+        v = _ev(kids[0], w)
+        return UNK if v is UNK else (not v)
+    if k == 'BinaryOperator' and n.get('op') in ('&&', '||'):
+        a = _ev(kids[0], w)
+        if n['op'] == '&&' and a is not UNK and not a:
+            return False
+        if n['op'] == '||' and a is not UNK and a:
+            return True
+        b = _ev(kids[1], w)
+        if a is UNK:
+            if n['op'] == '&&' and b is not UNK and not b:
+                return False
+            if n['op'] == '||' and b is not UNK and b:
+                return True
+            return UNK
+        return b
+    if (k == 'BinaryOperator' or k == 'CXXOperatorCallExpr') and n.get('op') in ('==', '!=', '<', '<=', '>', '>='):
+        ops = kids if k == 'BinaryOperator' else kids[1:]
+        a, b = _ev(ops[0], w), _ev(ops[1], w)
+        if a is UNK or b is UNK:
+            return UNK
+        if type(a) is not type(b):
+            raise Unhandled('comparison of %r and %r' % (a, b))
+        return {'==': a == b, '!=': a != b, '<': a < b, '<=': a <= b, '>': a > b, '>=': a >= b}[n['op']]
+    if k == 'CXXOperatorCallExpr' and n.get('op') == '[]':
+        base, idx = _ev(kids[1], w), _ev(kids[2], w)
+        return base[idx] if idx < len(base) else '\0'
+    if k == 'CXXMemberCallExpr':
+        fn = n.get('fn', '')
+        me = strip_all(kids[0])
+        obj = _ev(me['c'][0], w) if me.get('c') else None
+        args = [_ev(a, w) for a in kids[1:] if a.get('k') != 'DefaultArg' and a.get('k') != 'CXXDefaultArgExpr']
+        if fn.endswith('::size') or fn.endswith('::length'):
+            return len(obj)
+        if fn.endswith('::empty'):
+            return len(obj) == 0
+        if fn.endswith('::find_first_of') and len(args) == 1:
+            idx = [i for i, c in enumerate(obj) if c in args[0]]
+            return idx[0] if idx else NPOS
+        if fn.endswith('::find') and len(args) == 1:
+            return obj.find(args[0])
+        raise Unhandled('member call %s' % fn)
+    if k == 'CallExpr':
+        fn = n.get('fn', '')
+        args = [_ev(a, w) for a in kids[1:]]
+        if fn in ('strchr', 'std::strchr'):
+            return args[1] in args[0]
+        if fn in ('isalpha', 'std::isalpha'):
+            return args[0].isalpha()
+        # helpers whose answer for a string without quote, digit or letter is fixed (read: utils.h isStringLiteral/isCharLiteral test the closing quote,
+        # simplecpp::Token::isNumberLike tests a digit at [0] or after a sign)
+        if fn.split('::')[-1] in ('isStringLiteral', 'isCharLiteral', 'isNumberLike'):
+            return False
+        raise Unhandled('call %s' % fn)
+    raise Unhandled('node %s' % k)
+
+
+def _types(n, w, out):
+    """token types a tokType(e..) call can assign on the paths of statement n that are feasible for the string w"""
+    if n is None:
+        return
+    k = n.get('k')
+    if k == 'IfStmt':
+        c = _ev(n['cond'], w)
+        if c is UNK or c:
+            _types(n.get('then'), w, out)
+        if c is UNK or not c:
+            _types(n.get('else'), w, out)
+        return
+    if k in ('CXXMemberCallExpr', 'CallExpr') and (n.get('fn') or '').endswith('Token::tokType'):
+        refs = [x.get('n', '') for a in (n.get('c') or [])[1:] for x in walk(a) if x.get('k') == 'DeclRefExpr']
+        if len(refs) != 1:
+            raise Unhandled('tokType argument')
+        out.add(refs[0].split('::')[-1])
+        return
+    if k in ('CompoundStmt',):
+        for c in n.get('c') or []:
+            _types(c, w, out)
+        return
+    if k in ('ExprWithCleanups',):
+        for c in n.get('c') or []:
+            _types(c, w, out)
+
+
+def r33_4(ctx, F):
+    ctx.rule('R33.4', 'for every operator / punctuation string of the match compiler\'s tokTypes table, every token type that Token::update_property_info can assign to a token with '
+                      'that string (its else-if chain evaluated on the constant string, mLink unknown) is listed in the table')
+    tt = py_toktypes(F.root)
+    words = {w: v for w, v in tt.items() if not re.search(r'[A-Za-z0-9_"\'$]', w)}
+    ctx.floor('R33.4 operator strings in tokTypes', len(words), 35)
+    cands = [g for g in F.find('Token::update_property_info') if F.body(g) is not None]
+    if len(cands) != 1:
+        raise AnalysisBroken('Token::update_property_info: %d definitions' % len(cands))
+    body = F.body(cands[0])['body']
+    for w, (types, line) in sorted(words.items()):
+        got = set()
+        try:
+            for lv in ((False, True) if w in LINKABLE else (False,)):
+                LINK[0] = lv
+                _types(body, w, got)
+        except Unhandled as e:
+            raise AnalysisBroken('Token::update_property_info uses a construct the R33.4 evaluator does not model (%s)' % e)
+        if not got:
+            raise AnalysisBroken('R33.4: no tokType() assignment found for %r' % w)
+        extra = got - set(types)
+        ok = not extra
+        ctx.ob('R33.4', 'operator-types:%s' % w, ok, ('%r: update_property_info assigns %s, tokTypes lists %s' % (w, sorted(got), sorted(types))) if ok else
+               ('tools/matchcompiler.py:%s lists %s for the literal %r, but Token::update_property_info (lib/token.cpp:%s) can give such a token the type %s: the compiled '
+                'pattern then fails on a token the interpreted matcher (string comparison) matches' % (line, sorted(types), w, cands[0]['line'], sorted(extra))),
+               'tools/matchcompiler.py:%s' % line)
+
+
 def run(ctx):
     F = ctx.facts
     r33_3(ctx, F)
+    r33_4(ctx, F)
     ctx.rule('R33.1', 'for every %cmd% the interpreter (multiComparePercent, specialised to the command) and the match compiler (_compileCmd) test the same Token predicates, '
                       'and the interpreter consumes exactly the command')
     ctx.rule('R33.2', 'the commands the property names are in the match compiler\'s table')
